@@ -406,6 +406,66 @@ def tsGe (cfg : CmpCfg) (a b : Int) : Bool := !tsLt cfg a b
 def tsNe (cfg : CmpCfg) (a b : Int) : Bool := tsLt cfg a b || tsGt cfg a b
 def tsEq (cfg : CmpCfg) (a b : Int) : Bool := !tsNe cfg a b
 
+/-! ### a timestamp object: the value and the lazily cached UTC rendering (`_str`) -/
+
+structure TsObj where
+  μ : Int
+  bias : Int
+  cache : Option (List Char) := none
+deriving Repr, DecidableEq
+
+/-- `str(ts)` / `ts.utc` / `repr`: render with the default precision once, then answer from the
+cache.  `none`: `render` raised (year out of range); the cache is left alone. -/
+def TsObj.str (prec : Nat) (o : TsObj) : Option (List Char) × TsObj :=
+  match o.cache with
+  | some t => (some t, o)
+  | none =>
+    match render prec o.μ o.bias none .dflt with
+    | some t => (some t, { o with cache := some t })
+    | none => (none, o)
+
+/-- `ts += n` / `ts -= n`: `nonzero` is the truthiness of `n`, `(μ', bias')` the new float value.
+The cached rendering is dropped exactly when the value changes. -/
+def TsObj.inplace (o : TsObj) (nonzero : Bool) (μ' bias' : Int) : TsObj :=
+  if nonzero then { μ := μ', bias := bias', cache := none } else o
+
+/-- `ts + n` / `ts - n` (a number): a new timestamp; `timestamp(self)` for a falsy `n` copies the
+value *and* the cached rendering -/
+def TsObj.arith (o : TsObj) (nonzero : Bool) (μ' bias' : Int) : TsObj :=
+  if nonzero then { μ := μ', bias := bias', cache := none } else o
+
+/-- `ts.utc = text` / `ts.local = text` (text with its own zone word): parse first; only a
+successful parse changes the object, and it drops the cache -/
+def TsObj.assign (db : TzDb) (_o : TsObj) (text : List Char) : Except Reject TsObj :=
+  match parse db text with
+  | .ok v => .ok { μ := v, bias := 0, cache := none }
+  | .error e => .error e
+
+/-- the operations of the mutating API, as the driver and the theorems see them -/
+inductive ObjOp where
+  | str                                   -- str(ts) / ts.utc / repr(ts)
+  | render (p : Nat)                      -- ts.render(ms=p): never cached
+  | localGet                              -- ts.local: render(tzinfo=LOC, ms=False), never cached
+  | inplace (nonzero : Bool) (μ bias : Int)   -- ts += n, ts -= n
+  | arith (nonzero : Bool) (μ bias : Int)     -- ts = ts + n, ts = ts - n
+  | copy                                  -- ts = timestamp(ts): value and cache are copied
+  | assign (text : List Char)             -- ts.utc = text, ts.local = text
+  | cmp (μ bias : Int)                    -- compare with a fresh timestamp, then look at str() of both
+deriving Repr
+
+/-- the object after an operation (observing `str` fills the cache; a refused assignment changes nothing) -/
+def TsObj.step (prec : Nat) (db : TzDb) (o : TsObj) : ObjOp → TsObj
+  | .str => (o.str prec).2
+  | .render _ => o
+  | .localGet => o
+  | .inplace nz μ b => o.inplace nz μ b
+  | .arith nz μ b => o.arith nz μ b
+  | .copy => o
+  | .assign t => match o.assign db t with
+    | .ok o' => o'
+    | .error _ => o
+  | .cmp _ _ => (o.str prec).2
+
 /-! ### durations -/
 
 structure DurCfg where
